@@ -433,8 +433,8 @@ class World(object):
                         w.fault_fired.append((k, name, arg, owner, w.attempt.get(osid, 1)))
                         w.events.append(("hook-raised", name, arg))
                         if w.sx.bool("fault_is_assert:%d" % len(w.fault_fired)):
-                            raise AssertionError("hook fault %s" % name)
-                        raise RuntimeError("hook fault %s" % name)
+                            raise AssertionError("hook fault %s%s" % (name, w.opts.get("fault_message", "")))
+                        raise RuntimeError("hook fault %s%s" % (name, w.opts.get("fault_message", "")))
             hook.__name__ = name
             return hook
         names = ["before_all", "after_all", "before_feature", "after_feature", "before_rule", "after_rule",
